@@ -132,6 +132,10 @@ type OpsOpts struct {
 	Budget       int
 	MaxStr       int
 	TopContainer bool
+	// DeepChains occasionally nests the value 31-70 levels deep (beyond the
+	// pre-allocated nesting stacks) and continues every level after its
+	// child closed.
+	DeepChains bool
 }
 
 type opsGen struct {
@@ -144,6 +148,10 @@ type opsGen struct {
 // GenOps draws one well-formed event stream describing a single value.
 func GenOps(c *simkit.Choices, o OpsOpts) []Op {
 	g := &opsGen{c: c, o: o, budget: o.Budget}
+	if o.DeepChains && c.N(6) == 0 {
+		g.deepChain()
+		return g.ops
+	}
 	if o.TopContainer {
 		g.container(0)
 	} else {
@@ -153,6 +161,56 @@ func GenOps(c *simkit.Choices, o OpsOpts) []Op {
 }
 
 func (g *opsGen) emit(e simkit.Ev) { g.ops = append(g.ops, Op{Ev: e}) }
+
+// deepChain nests a scalar d levels deep; container kinds per level are drawn
+// (runs of arrays, runs of objects, or mixed) and each level gets one more
+// element after its child closed, so that per-level flags matter on the way up.
+func (g *opsGen) deepChain() {
+	c := g.c
+	d := []int{31, 32, 33, 34, 40, 48, 70}[c.N(7)]
+	mode := c.N(3) // 0 arrays, 1 objects, 2 mixed
+	kinds := make([]bool, d)
+	for i := range kinds {
+		switch mode {
+		case 0:
+			kinds[i] = true
+		case 1:
+			kinds[i] = false
+		default:
+			kinds[i] = c.Bool()
+		}
+	}
+	for i := 0; i < d; i++ {
+		if kinds[i] {
+			g.emit(simkit.Ev{K: simkit.KArrStart, I: -1})
+			if c.N(4) == 0 {
+				g.emit(simkit.Ev{K: simkit.KInt8, I: int64(i % 100)})
+			}
+		} else {
+			g.emit(simkit.Ev{K: simkit.KObjStart, I: -1})
+			if c.N(4) == 0 {
+				g.emit(simkit.Ev{K: simkit.KKey, S: "p"})
+				g.emit(simkit.Ev{K: simkit.KBool, I: 1})
+			}
+			g.emit(simkit.Ev{K: simkit.KKey, S: "c"})
+		}
+	}
+	g.scalar()
+	for i := d - 1; i >= 0; i-- {
+		if kinds[i] {
+			if c.N(3) == 0 {
+				g.emit(simkit.Ev{K: simkit.KInt8, I: int64(i % 100)})
+			}
+			g.emit(simkit.Ev{K: simkit.KArrEnd})
+		} else {
+			if c.N(3) == 0 {
+				g.emit(simkit.Ev{K: simkit.KKey, S: "j"})
+				g.emit(simkit.Ev{K: simkit.KInt8, I: 2})
+			}
+			g.emit(simkit.Ev{K: simkit.KObjEnd})
+		}
+	}
+}
 
 func (g *opsGen) value(depth int) {
 	c := g.c
